@@ -746,3 +746,49 @@ def rule_spans_validate(ctx, rep, langs=ALL_LANGS):
             continue
         rep.check(not bad, R, lang, '%d spans validate to their own text' % okc, 'in %r %s (%d spans)' % (bad[0] + (len(bad),) if bad else ('', '', 0)))
     rep.floor(R, total, 500, 'spans validated')
+
+
+LINKING = {'en': ('plus', 'is'), 'fr': ('plus', 'voilà'), 'es': ('menos', 'son'), 'pt': ('mais', 'são'), 'it': ('più', 'è'), 'de': ('noch', 'genau'),
+           'nl': ('plus', 'is')}
+
+
+def rule_linking_case(ctx, rep, langs=ALL_LANGS):
+    R = 'S11-LINKING-CASE'
+    rep.rule(R, 'replace_numbers_in_text at thresholds 0 and 10 in each real language: small numbers joined by linking words of the language\'s '
+                'vocabulary ("one plus one is two") are rewritten whatever the case of any word — lower, UPPER, Capitalised give the same numbers, '
+                'the other words keeping their case; an ordinary word between them keeps them isolated in every casing')
+    jobs = {}
+    for lang in langs:
+        l1, l2 = LINKING[lang]
+        w1, w2 = WORDS[lang]
+        sp = lambda n: ' '.join(spellings(lang, n)[0])   # noqa: E731
+        base = ['%s %s %s %s %s' % (sp(1), l1, sp(1), l2, sp(2)), '%s %s %s %s' % (w1, sp(2), l1, sp(3)), '%s %s %s' % (sp(2), w1, sp(3))]
+        items = []
+        for bi, t in enumerate(base):
+            for ci, tt in enumerate((t, t.upper(), t.title())):
+                for th in (0.0, 10.0):
+                    items.append(((bi, ci, th), tt, th))
+        jobs[lang] = items
+    res = _memo(ctx, 'sent-linking-case', jobs)
+    total = 0
+    for lang in langs:
+        bad, okc = [], 0
+        for (bi, ci, th), text, _th in jobs[lang]:
+            if ci == 0:
+                continue
+            total += 1
+            r0, r = res[lang][(bi, 0, th)], res[lang][(bi, ci, th)]
+            if '?' in (r0[0], r[0]):
+                bad.append((text, r if r[0] == '?' else r0, ''))
+                continue
+            if r0[0] != 'ok' or r[0] != 'ok':
+                bad.append((text + ' @%s' % th, r, 'no panic'))
+                continue
+            # same numbers: compare case-insensitively (digits have no case, untouched words keep theirs)
+            keeps_case = all(w in text.split(' ') or any(c.isdigit() for c in w) for w in r[1].split(' '))
+            if r[1].lower() != r0[1].lower() or not keeps_case:
+                bad.append((text + ' @%s' % th, r, r0[1] + ' (same numbers, words in their own case)'))
+            else:
+                okc += 1
+        _report(rep, R, lang, 'linking-words', bad, okc)
+    rep.floor(R, total, 80, 'sentences compared')
